@@ -23,7 +23,10 @@ RULE = ("for each of 20 element universes of 2-5 values (f64, f64 with +0/-0, f3
         "literal, through a variable, by typed matrix conversion and by identity comprehension over a set / a matrix; all 24 (quick: 8) orders of 4 elements for "
         "5 kinds; sets whose literal lists variables; comprehensions of 22 shapes (1-2 generators over sets / inline sets / matrices; "
         "variable, tuple, wildcard and repeated-variable patterns; 0-2 filters with == != < > <= >= against constants and between variables, "
-        "also between the generators; outputs x, y, (x,y), (y,x), (x,x), constants); operands of different kinds; mixed-kind literals. "
+        "also between the generators; outputs x, y, (x,y), (y,x), (x,x), constants) and of 20 shapes with a DEPENDENT generator (a later "
+        "generator ranging over a set literal {x, c} / {x} / {c, x} of earlier variables or over a variable bound earlier to a set: y <- x over a "
+        "set of sets, (k, s) <- P followed by y <- s, filters before / after the dependent generator and on k, a third generator over {y, c}; "
+        "collections that are no set / unbound / of two kinds); operands of different kinds; mixed-kind literals. "
         "non-trivial = distinct case whose verdict is not kind-error")
 ASSUMPTIONS = [
     "the case carries element values (f64 bit patterns, reduced rationals); that the spelling in the source denotes that value is C13's subject "
@@ -313,7 +316,9 @@ def pat_sx(p):
 
 
 def comp_case(uname, shape, out, quals, rng, srcmode=None):
-    """quals: list of ("gen", pat, name, elems) | ("flt", opname, term, term)"""
+    """quals: list of ("gen", pat, name, elems) | ("flt", opname, term, term)
+              | ("gend", pat, ("lit", [terms]))   dependent generator over a set literal of terms  `p <- {t1, t2}`
+              | ("gend", pat, ("var", name))      dependent generator over an earlier variable     `p <- x`"""
     lines = []
     defined = {}
     qsx, qsrc = [], []
@@ -332,12 +337,91 @@ def comp_case(uname, shape, out, quals, rng, srcmode=None):
                     defined[name] = name
             qsx.append(["gen", pat_sx(p), [vsx(v) for v in elems]])
             qsrc.append("%s <- %s" % (pat_src(p), defined[name]))
+        elif qu[0] == "gend":
+            _, p, coll = qu
+            if coll[0] == "lit":
+                qsx.append(["gend", pat_sx(p), ["lit"] + [term_sx(t) for t in coll[1]]])
+                qsrc.append("%s <- {%s}" % (pat_src(p), ", ".join(term_src(t) for t in coll[1])))
+            else:
+                qsx.append(["gend", pat_sx(p), ["var", coll[1]]])
+                qsrc.append("%s <- %s" % (pat_src(p), coll[1]))
         else:
             _, opname, a, b = qu
             qsx.append(["flt", opname, term_sx(a), term_sx(b)])
             qsrc.append("%s %s %s" % (term_src(a), dict(CMP)[opname], term_src(b)))
     lines.append("{ %s | %s }" % (term_src(out), ", ".join(qsrc)))
     return mk(["comp", term_sx(out), qsx], lines, dict(stream="comprehension", elemkind=uname, op="comp:" + shape, built="comprehension"))
+
+
+def dep_cases(uname, vals, rng, A, maxlen):
+    """comprehensions with a DEPENDENT generator: the collection of a later generator mentions a variable bound by an
+    earlier one, so it has to be evaluated once per binding.  Expected values: the Coq model only."""
+    scalar = uname in SCALAR
+    numeric = uname in NUMERIC
+    ops = ["eq", "ne"] + (["lt", "gt", "le", "ge"] if numeric else [])
+    x, y, z = V("x"), V("y"), V("z")
+    px, py, pz = ("v", "x"), ("v", "y"), ("v", "z")
+    c1, c2 = C(rng.choice(vals)), C(rng.choice(vals))
+    gA = ("gen", px, "A", A)
+    lit_xc = ("gend", py, ("lit", [x, c1]))
+    # --- y <- {x, c}, y <- {x}: every universe (nested sets / tuples included: all values of a universe have one kind)
+    yield comp_case(uname, "dep-literal", y, [gA, lit_xc], rng)
+    yield comp_case(uname, "dep-literal-pair", P(x, y), [gA, ("gend", py, ("lit", [c1, x]))], rng)
+    yield comp_case(uname, "dep-singleton-diagonal", P(x, y), [gA, ("gend", py, ("lit", [x]))], rng)
+    yield comp_case(uname, "dep-literal-rebind", x, [gA, ("gend", px, ("lit", [x, c1]))], rng)
+    yield comp_case(uname, "dep-literal-constants", P(x, y), [gA, ("gend", py, ("lit", [c1, c2]))], rng)
+    if uname.startswith("set-"):
+        # --- y <- x over a set of sets (the universe's values are sets)
+        elems = []
+        for v in vals:
+            for e in v[1]:
+                if e not in elems:
+                    elems.append(e)
+        ek = kind_of(elems[0])
+        eops = ["eq", "ne"] + (["lt", "gt", "le", "ge"] if ek in NUMERIC else [])
+        dep = ("gend", py, ("var", "x"))
+        yield comp_case(uname, "flatten", y, [gA, dep], rng)
+        yield comp_case(uname, "flatten-pair", P(x, y), [gA, dep], rng)
+        if ek is not None:
+            ce = C(rng.choice(elems))
+            yield comp_case(uname, "flatten-filter", y, [gA, dep, ("flt", rng.choice(eops), y, ce)], rng)
+            yield comp_case(uname, "flatten-relit", z, [gA, dep, ("gend", pz, ("lit", [y, ce]))], rng)
+    if not scalar:
+        return
+    o1, o2 = rng.choice(ops), rng.choice(ops)
+    # --- a dependent generator and filters, before and after it
+    yield comp_case(uname, "dep-literal-filter", y, [gA, lit_xc, ("flt", o1, y, c2)], rng)
+    yield comp_case(uname, "dep-literal-filter-vars", P(x, y), [gA, lit_xc, ("flt", o1, x, y)], rng)
+    yield comp_case(uname, "dep-filter-then-literal", y, [gA, ("flt", o1, x, c2), lit_xc], rng)
+    # --- y <- x over a set of sets built from the universe (members of one size k: a set's kind includes its size;
+    #     every member written in universe order: Hash and == disagree on permuted nested sets, see kf nested-set-order)
+    k = rng.choice([1, 2]) if len(vals) > 2 else 1
+    members = [SET(*c) for c in itertools.combinations(vals, k)]
+    SS = written(rng.sample(members, rng.randint(0 if rng.random() < 0.15 else min(2, len(members)), min(3, len(members)))), rng, 4)
+    gS = ("gen", px, "S", SS)
+    dep = ("gend", py, ("var", "x"))
+    yield comp_case(uname, "flatten", y, [gS, dep], rng)
+    yield comp_case(uname, "flatten-pair", P(x, y), [gS, dep], rng)
+    yield comp_case(uname, "flatten-filter", y, [gS, dep, ("flt", o2, y, c1)], rng)
+    yield comp_case(uname, "flatten-relit", z, [gS, dep, ("gend", pz, ("lit", [y, c1]))], rng)
+    # --- (k, s) <- P, y <- s, filter on k
+    keys = rng.sample(vals, min(len(vals), rng.randint(1, 3)))
+    Pw = [T(kk, rng.choice(members)) for kk in keys]
+    if Pw and rng.random() < 0.5:
+        Pw.append(T(rng.choice(keys), rng.choice(members)))
+    rng.shuffle(Pw)
+    gP = ("gen", ("pair", ("v", "k"), ("v", "s")), "P", Pw)
+    deps = ("gend", py, ("var", "s"))
+    yield comp_case(uname, "pattern-set-filter", y, [gP, deps, ("flt", o1, V("k"), c2)], rng)
+    yield comp_case(uname, "pattern-set-filter-first", y, [gP, ("flt", o1, V("k"), c2), deps], rng)
+    yield comp_case(uname, "pattern-set-pair", P(V("k"), y), [gP, deps], rng)
+    yield comp_case(uname, "pattern-set-filter-elem", P(V("k"), y), [gP, deps, ("flt", o2, y, V("k"))], rng)
+    # --- where the collection is no set / unbound / of two kinds: an error if (and only if) an environment reaches the
+    #     generator (advisory when the model predicts the error; the empty set otherwise, which is binding)
+    other = C(S("zz")) if uname != "string" else C(F(1))
+    yield comp_case(uname, "dep-over-scalar", y, [gA, ("flt", o1, x, c1), ("gend", py, ("var", "x"))], rng)
+    yield comp_case(uname, "dep-unbound", y, [gA, ("flt", o1, x, c1), ("gend", py, ("var", "q"))], rng)
+    yield comp_case(uname, "dep-mixed-kinds", y, [gA, ("flt", o1, x, c1), ("gend", py, ("lit", [x, other]))], rng)
 
 
 def comp_cases(uname, vals, rng, n_each, maxlen=6):
@@ -361,6 +445,8 @@ def comp_cases(uname, vals, rng, n_each, maxlen=6):
         yield comp_case(uname, "join-repeated-var", x, [gA, ("gen", ("v", "x"), "B", Bs)], rng)
         yield comp_case(uname, "diagonal", P(x, x), [gA], rng)
         yield comp_case(uname, "constant", c1, [gA], rng)
+        for c in dep_cases(uname, vals, rng, A, maxlen):
+            yield c
         if scalar:
             o1, o2 = rng.choice(ops), rng.choice(ops)
             yield comp_case(uname, "filter-const", x, [gA, ("flt", o1, x, c1)], rng)
